@@ -469,8 +469,7 @@ class LP_Solver:
         obj = LpVariable(
             "lec_sum_abs_diff", 
             lowBound = 0,
-            upBound = (self.model.get_max_lec_upper_quota() * 
-                self.model.num_students),
+            upBound = sum(self.model.lec_upper_quotas),
             cat="Integer")
         
         self.prob += (obj >= lpSum(self.model.abs_lec_diff))
